@@ -45,7 +45,7 @@ Let ceqb_true_iff := Lib_rk.ceqb_true_iff cand ceqb ceqb_spec.
 
 (* ====================== scripts ====================== *)
 
-Definition scr_suffix (s s' : mstate) : Prop := exists pre, scr s = pre ++ scr s'.
+Notation scr_suffix := (scr_suffix cand).
 
 Lemma scr_suffix_refl : forall s, scr_suffix s s.
 Proof. intros s. exists []. reflexivity. Qed.
